@@ -39,7 +39,12 @@ def case(g, tier, ci):
         ops[:] = [o for o in ops if o["op"] != "bp.setMarker"]
         info["SR"] = newSR
         info["intdur"] = True
-    ops += [{"op": "el.new", "id": "e"}, {"op": "el.addBP", "id": "e", "ch": 1, "bp": "b"},
+    ops.append({"op": "el.new", "id": "e"})
+    if (ci % 4) == 1:
+        # the channel held a raw array first: assigning the blueprint replaces it completely
+        ops.append({"op": "el.addArray", "id": "e", "ch": 1, "wfm": [q(0.125 * (j % 5)) for j in range(6 + ci % 3)], "SR": enc(info["SR"]),
+                    "kw": [["m1", [0] * (6 + ci % 3)]]})
+    ops += [{"op": "el.addBP", "id": "e", "ch": 1, "bp": "b"},
             {"op": "el.getArrays", "id": "e", "time": True}, {"op": "el.getArrays", "id": "e", "time": False}]
     if r.random() < 0.2 and not info.get("intdur"):     # (with int durations the TOTAL may sit at a rounding tie)
         # the element was queried (SR/points/duration are cached), then its channel is replaced by the same
@@ -74,6 +79,12 @@ def case(g, tier, ci):
     if r.random() < 0.3:
         ops += [{"op": "sq.new", "id": "s"}, {"op": "sq.setSR", "id": "s", "v": enc(info["SR"])},
                 {"op": "sq.addElement", "id": "s", "pos": 1, "el": "e"}, {"op": "sq.forge", "id": "s", "delays": True, "filters": True, "time": True}]
+        if (ci % 2) == 0:
+            # the sequence's own sample rate is set (again, to another value) after the element went in: the element
+            # is still forged at its blueprints' rate
+            ops += [{"op": "sq.setSR", "id": "s", "v": enc(info["SR"] * 1.25)},
+                    {"op": "sq.forge", "id": "s", "delays": True, "filters": True, "time": True},
+                    {"op": "el.getArrays", "id": "e", "time": True}]
     return ops
 
 
